@@ -5,6 +5,7 @@ go 1.24.0
 require (
 	github.com/itchio/headway v0.0.0-20251229214354-da882c8b5dd4
 	github.com/itchio/lake v0.0.0-20200305150023-cc4284ec2b2a
+	github.com/itchio/savior v0.0.0-20200618124148-6034e878d75b
 	github.com/itchio/wharf v0.0.0
 )
 
@@ -24,15 +25,19 @@ require (
 	github.com/getlantern/ops v0.0.0-20231025133620-f368ab734534 // indirect
 	github.com/go-logr/logr v1.4.3 // indirect
 	github.com/go-logr/stdr v1.2.2 // indirect
+	github.com/go-ozzo/ozzo-validation v3.6.0+incompatible // indirect
 	github.com/go-stack/stack v1.8.1 // indirect
 	github.com/gogs/chardet v0.0.0-20211120154057-b7413eaefb8f // indirect
 	github.com/golang/protobuf v1.5.4 // indirect
+	github.com/hashicorp/golang-lru v1.0.2 // indirect
 	github.com/itchio/arkive v0.0.0-20200618123031-1a30392a8cfe // indirect
+	github.com/itchio/dskompress v0.0.0-20190702113811-5e6f499be697 // indirect
+	github.com/itchio/go-brotli v0.0.0-20190702114328-3f28d645a45c // indirect
 	github.com/itchio/httpkit v0.0.0-20251231162950-9fb57e6ac916 // indirect
 	github.com/itchio/kompress v0.0.0-20200301155538-5c2eecce9e51 // indirect
 	github.com/itchio/ox v0.0.0-20200826161350-12c6ca18d236 // indirect
-	github.com/itchio/savior v0.0.0-20200618124148-6034e878d75b // indirect
 	github.com/itchio/screw v0.0.0-20200301160148-75fc2d65fb38 // indirect
+	github.com/jgallagher/gosaca v0.0.0-20130226042358-754749770f08 // indirect
 	github.com/klauspost/compress v1.18.3 // indirect
 	github.com/mitchellh/copystructure v1.2.0 // indirect
 	github.com/mitchellh/reflectwalk v1.0.2 // indirect
@@ -49,4 +54,4 @@ require (
 	google.golang.org/protobuf v1.36.11 // indirect
 )
 
-replace github.com/itchio/wharf => /repo
+replace github.com/itchio/wharf => ../../repo
